@@ -501,6 +501,32 @@ func viewAccount(app *chainapp.Evermint, ctx sdk.Context, a common.Address) acct
 	return v
 }
 
+// docViews: the same view taken from the auth / bank sections of a genesis document
+func docViews(t *testing.T, c *Chain, appState []byte, addrs []common.Address) map[common.Address]acctView {
+	gs := docSections(t, appState)
+	_, accs := docAccounts(t, c, gs)
+	var bg banktypes.GenesisState
+	require.NoError(t, c.S.EncodingConfig.Codec.UnmarshalJSON(gs["bank"], &bg))
+	out := map[common.Address]acctView{}
+	for _, a := range addrs {
+		v := acctView{auth: "(no account)", bank: sdk.NewCoins().String()}
+		for _, acc := range accs {
+			if string(acc.GetAddress()) == string(a.Bytes()) {
+				b, err := c.S.EncodingConfig.Codec.MarshalInterfaceJSON(acc)
+				require.NoError(t, err)
+				v.auth = canonJSON(b)
+			}
+		}
+		for _, b := range bg.Balances {
+			if b.Address == sdk.AccAddress(a.Bytes()).String() {
+				v.bank = b.Coins.String()
+			}
+		}
+		out[a] = v
+	}
+	return out
+}
+
 func interestAddrs(h *hist, sA *cState, p *envPatch) []target {
 	var out []target
 	seen := map[common.Address]bool{}
